@@ -114,6 +114,9 @@ def run(ctx):
     from ..keystate import stale_rule
 
     ctx.section(stale_rule, ctx, "C14.stale", funcs, "the normalisation of the parameter entry")
+    from . import c10 as _c10_state
+
+    ctx.section(_c10_state.state_slice, ctx, 'C14.state', ['cdd.class_.parse.class_', 'cdd.function.parse.function', 'cdd.argparse_function.parse.argparse_ast', 'cdd.docstring.parse.docstring', 'cdd.sqlalchemy.parse.sqlalchemy', 'cdd.sqlalchemy.parse.sqlalchemy_table', 'cdd.sqlalchemy.parse.sqlalchemy_hybrid', 'cdd.json_schema.parse.json_schema'], 5)
 
 
 def _entries(ctx, index, funcs):
